@@ -7,6 +7,38 @@ use crate::rng::Rng;
 use crate::script::{hex, hex_or_dash, Seg};
 use encoding_rs::Encoding;
 
+/// Content-Type values around the edges of the `; charset=` parameter syntax: none of them may make the client
+/// panic (C05) and each selects what the statement says (a label only when `; charset=label` is there and known).
+/// (value, the label the statement sees — the bytes after `charset=` of the FIRST parameter — or None)
+pub const CONTENT_TYPE_EDGES: [(&str, Option<&str>); 26] = [
+    ("text/html; charset=\"", Some("\"")),
+    ("text/html; charset=\"\"", Some("\"\"")),
+    ("text/html; charset=\"utf-8\"", Some("\"utf-8\"")),
+    ("text/html; charset=\"utf-8", Some("\"utf-8")),
+    ("text/html; charset=utf-8\"", Some("utf-8\"")),
+    ("text/html; charset=", Some("")),
+    ("text/html; charset", None),
+    ("text/html; chars", None),
+    ("text/html; c", None),
+    ("text/html;", None),
+    ("text/html; ", None),
+    ("text/html;;", None),
+    (";", None),
+    ("; charset=utf-8", Some("utf-8")),
+    ("", None),
+    (" ", None),
+    ("text/plain; q=0.5", None),
+    ("text/html; level=1", None),
+    ("text/html; charset=utf-8; charset=shift_jis", Some("utf-8; charset=shift_jis")),
+    ("text/html; CHARSET=utf-8", None),
+    ("text/html;charset=utf-8 ", Some("utf-8")),
+    ("text/html; charset= utf-8", Some(" utf-8")),
+    ("text/html; charset=utf-8;", Some("utf-8;")),
+    ("text/html; charset=\u{e9}", Some("\u{e9}")),
+    ("text/html; charset=utf-8\t", Some("utf-8\t")),
+    ("multipart/form-data; boundary=x", None),
+];
+
 const LABELS: [&str; 24] = [
     "utf-8", "utf8", "UTF-8", "Utf-8", "iso-8859-1", "latin1", "ISO-8859-2", "windows-1252", "Windows-1251", "shift_jis", "SHIFT_JIS", "sjis", "euc-jp", "EUC-KR", "gbk",
     "gb18030", "big5", "koi8-r", "utf-16le", "UTF-16BE", "ibm866", "x-mac-cyrillic", "macintosh", "iso-2022-jp",
@@ -14,9 +46,12 @@ const LABELS: [&str; 24] = [
 
 fn send_over(segs: Vec<Seg>, default_cs: Option<&'static Encoding>) -> Result<attohttpc::Response, String> {
     let _log = install_script(segs);
-    let r = attohttpc::get("http://verif.test/t").allow_compression(false).follow_redirects(false).default_charset(default_cs).send();
+    let r = std::panic::catch_unwind(std::panic::AssertUnwindSafe(|| attohttpc::get("http://verif.test/t").allow_compression(false).follow_redirects(false).default_charset(default_cs).send()));
     attohttpc::verif_hooks::clear_dial_factory();
-    r.map_err(|e| format!("{:?}", e.kind()))
+    match r {
+        Err(_) => Err("panic".into()),
+        Ok(r) => r.map_err(|e| format!("{:?}", e.kind())),
+    }
 }
 
 /// A byte order mark is only ever *removed* when it is the mark of the charset in use; it never selects a
@@ -72,7 +107,27 @@ fn body_for(rng: &mut Rng, enc: &'static Encoding) -> Vec<u8> {
 /// an 8-byte staging buffer) against the Lean model `TextStage`. The decoder behind it is third-party: its
 /// answers are RECORDED from a second, identical `DecodeReaderBytes` that the harness drives with the sizes
 /// the staging logic is specified to ask for, and given to the model as a table.
-fn stage_cases(rng: &mut Rng, n: usize, sink: &mut Sink) {
+/// the byte source under a decoder: the body, with transient read errors at given offsets (each returned once)
+struct Src {
+    data: Vec<u8>,
+    pos: usize,
+    errs: Vec<usize>,
+}
+impl Read for Src {
+    fn read(&mut self, buf: &mut [u8]) -> std::io::Result<usize> {
+        if let Some(i) = self.errs.iter().position(|e| *e == self.pos) {
+            self.errs.remove(i);
+            return Err(std::io::Error::new(std::io::ErrorKind::TimedOut, "transient"));
+        }
+        let stop = self.errs.iter().filter(|e| **e > self.pos).min().copied().unwrap_or(self.data.len());
+        let n = buf.len().min(stop - self.pos);
+        buf[..n].copy_from_slice(&self.data[self.pos..self.pos + n]);
+        self.pos += n;
+        Ok(n)
+    }
+}
+
+pub fn stage_cases(rng: &mut Rng, n: usize, always_errors: bool, sink: &mut Sink) {
     use encoding_rs_io::DecodeReaderBytesBuilder;
     let labels = ["utf-8", "shift_jis", "windows-1252", "utf-16le", "iso-2022-jp", "gbk"];
     for i in 0..n {
@@ -110,8 +165,13 @@ fn stage_cases(rng: &mut Rng, n: usize, sink: &mut Sink) {
         for _ in 0..(i % 4) {
             ns.push(*rng.pick(&[1usize, 3, 4, 0]));
         }
+        // transient transport errors under the decoder, in one case in four (each error is returned once)
+        // (not within the first three bytes: encoding_rs_io peeks at them for a byte order mark and loses what it had read
+        // when the error strikes there — third-party, recorded as observation O9 in DESIGN.md)
+        let errs: Vec<usize> = if (always_errors || rng.chance(1, 4)) && body.len() > 4 { (0..rng.range(1, 3)).map(|_| 3 + rng.below(body.len() as u64 - 3) as usize).collect() } else { vec![] };
+        let src = || Src { data: body.clone(), pos: 0, errs: errs.clone() };
         // the real TextReader over the schedule
-        let mut tr = attohttpc::TextReader::new(&body[..], enc);
+        let mut tr = attohttpc::TextReader::new(src(), enc);
         let mut evs: Vec<String> = vec![];
         let mut streamed: Vec<u8> = vec![];
         let mut overlong = None;
@@ -131,7 +191,26 @@ fn stage_cases(rng: &mut Rng, n: usize, sink: &mut Sink) {
         // the decoder's answers to the sizes the staging logic asks for (specification of the fix: the size
         // of the caller's buffer when it has at least 8 bytes of room or none at all, 8 otherwise; nothing while
         // staged bytes are pending)
-        let mut dec = DecodeReaderBytesBuilder::new().encoding(Some(enc)).build(&body[..]);
+        // after the schedule the rest is taken with the std helpers (read_to_string / read_to_end), as a caller would
+        // after peeking at the first bytes; a transient error ends them: they are called again
+        let mut rest: Vec<u8> = vec![];
+        let mut rest_err = 0;
+        for round in 0..8 {
+            // read_to_string needs what follows to start at a character boundary
+            let r = if (i + round) % 3 != 0 && std::str::from_utf8(&streamed).is_ok() && rest.is_empty() {
+                let mut st = String::new();
+                let r = tr.read_to_string(&mut st);
+                rest.extend_from_slice(st.as_bytes());
+                r
+            } else {
+                tr.read_to_end(&mut rest)
+            };
+            match r {
+                Ok(_) => break,
+                Err(_) => rest_err += 1,
+            }
+        }
+        let mut dec = DecodeReaderBytesBuilder::new().encoding(Some(enc)).build(src());
         let mut answers: Vec<String> = vec![];
         let mut pending = 0usize;
         for &k in &ns {
@@ -161,13 +240,17 @@ fn stage_cases(rng: &mut Rng, n: usize, sink: &mut Sink) {
         let is_prefix = |s: &[u8]| whole.as_bytes().starts_with(s) || sans_bom.as_ref().map_or(false, |x| x.as_bytes().starts_with(s));
         let o = if let Some(j) = overlong {
             Err(("stage-overlong-read".to_string(), format!("read #{} returned more than the buffer holds", j)))
-        } else if (ended && !is_whole(&streamed)) || !is_prefix(&streamed) {
+        } else if (errs.is_empty() && !is_whole(&[&streamed[..], &rest[..]].concat())) || !is_prefix(&[&streamed[..], &rest[..]].concat()) {
+            // without transport errors: exactly the text; with them (the statement is silent; encoding_rs_io loses what it
+            // had peeked at for a byte order mark when the error strikes there): still nothing but a prefix of it
+            Err((format!("decode-differs-text_reader-{}", enc.name()), format!("schedule {:?}… then read_to_string/read_to_end: {} + {} bytes, whole text {} bytes ({} transient errors injected)", &ns[..ns.len().min(12)], streamed.len(), rest.len(), whole.len(), errs.len())))
+        } else if (errs.is_empty() && ended && !is_whole(&streamed)) || !is_prefix(&streamed) {
             Err((format!("decode-differs-text_reader-{}", enc.name()), format!("schedule {:?}…: streamed {} bytes (end signalled: {}), whole text {} bytes", &ns[..ns.len().min(12)], streamed.len(), ended, whole.len())))
         } else {
             Ok(())
         };
         sink.push(Case {
-            tags: vec!["kind=stage".into(), format!("charset={}", enc.name()), format!("tiny-reads={}", ns.iter().filter(|k| **k > 0 && **k < 8).count() > 0)],
+            tags: vec!["kind=stage".into(), format!("transient-errors={}", errs.len()), format!("charset={}", enc.name()), format!("tiny-reads={}", ns.iter().filter(|k| **k > 0 && **k < 8).count() > 0)],
             op: format!("stage {} {}", if ns.is_empty() { "-".to_string() } else { ns.iter().map(|k| k.to_string()).collect::<Vec<_>>().join(",") }, if answers.is_empty() { "-".to_string() } else { answers.join(",") }),
             impl_line: format!("ev={}", evs.join(",")),
             oracle: o,
@@ -177,7 +260,7 @@ fn stage_cases(rng: &mut Rng, n: usize, sink: &mut Sink) {
 
 pub fn generate(seed: u64, tier: &str, sink: &mut Sink) {
     let mut rng = Rng::new(seed ^ 0xC18);
-    stage_cases(&mut Rng::new(seed ^ 0xC185), if tier == "thorough" { 6000 } else { 600 }, sink);
+    stage_cases(&mut Rng::new(seed ^ 0xC185), if tier == "thorough" { 6000 } else { 600 }, false, sink);
     let thorough = tier == "thorough";
     let n = if thorough { 40_000 } else { 3000 };
     let defaults: [Option<&'static Encoding>; 3] = [None, Some(encoding_rs::UTF_8), Some(encoding_rs::SHIFT_JIS)];
@@ -201,7 +284,11 @@ pub fn generate(seed: u64, tier: &str, sink: &mut Sink) {
     for i in 0..n {
         let force = forced.get(i).cloned();
         // --- header form
-        let (ct, raw_label, form): (Option<Vec<u8>>, Option<Vec<u8>>, &str) = match rng.below(9) {
+        let (ct, raw_label, form): (Option<Vec<u8>>, Option<Vec<u8>>, &str) = match rng.below(10) {
+            9 => {
+                let (v, l) = *rng.pick(&CONTENT_TYPE_EDGES);
+                (Some(v.as_bytes().to_vec()), l.map(|x| x.as_bytes().to_vec()), "edge-syntax")
+            }
             0 => (None, None, "absent"),
             1 => (Some(b"text/html".to_vec()), None, "no-param"),
             2 => {
@@ -270,7 +357,7 @@ pub fn generate(seed: u64, tier: &str, sink: &mut Sink) {
         let call = if force.is_some() { 1 } else { rng.below(4) };
         let mut rbuf = 0usize;
         let o: Result<(String, String), (String, String)> = (|| {
-            let resp = send_over(segs.clone(), dflt).map_err(|e| ("send-failed".to_string(), e))?;
+            let resp = send_over(segs.clone(), dflt).map_err(|e| (if e == "panic" { format!("panic-send-{}", form) } else { "send-failed".to_string() }, e))?;
             let chosen = resp.verif_charset();
             if chosen != expect.name() {
                 return Err((format!("wrong-charset-{}", form), format!("Content-Type {:?} default {:?}: decoding with {}, statement gives {}", ct.as_ref().map(|c| String::from_utf8_lossy(c).to_string()), dflt.map(|d| d.name()), chosen, expect.name())));
